@@ -425,7 +425,8 @@ def run_resampling(ctx):
 def run(ctx):
     ctx.note('rule', 'interpolation: one case = (interpolator kind, per-axis scheme tuple, dimension, uniform/non-uniform, '
                      'value dtype, repetition) evaluated at 7 point kinds and through 3 calling conventions; sampling: one '
-                     'case = (callable kind, space); all scheme tuples (2^n) and callable kinds are enumerated; distinct = '
+                     'case = (callable kind, space); all scheme tuples (2^n) and callable kinds are enumerated; a third of the grids lie far '
+                     'from the origin (offset ~1e3, cells ~1e-2); Resampling in 1-3d with every scheme tuple and its inverse / adjoint; distinct = '
                      'distinct case keys')
     cov = cover.Cover()
     for name in ('_find_indices', '_compute_nearest_weights_edge', '_compute_linear_weights_edge', '_create_weight_edge_lists',
